@@ -15,8 +15,9 @@ Requests (one per line; the answer is zero or more lines, then `.`):
                  repeats) · `make <id> <0|1>` · `cancel <id>` · `connOk` · `connFail` ·
                  `advance <rat>` · `bytes <hex>` · `lost` · `close` · `disconnect` ·
                  `meta <host> <port>` · `wfail <0|1>` → observation lines · `bc-state` → a dump
-                 A `make` may carry a re-entrant callback: `make <id> <0|1> hook close|disconnect|cancel <id>|make <id>
-                 <0|1>`.  All broker-client events are executed by the re-entrant model
+                 A `make` may carry a re-entrant callback: `make <id> <0|1> hook <action> [; <action>]…` with <action> one of
+                 `close`, `disconnect`, `cancel <id>`, `make <id> <0|1>`; `stubborn <0|1>` switches the endpoint that
+                 connects from inside `cancel()`.  All broker-client events are executed by the re-entrant model
                  (`Afkak/BrokerClientR.lean`); observations then include the markers `made <serial> <id>`,
                  `closing`, `hook <serial>`, `endhook`.  As long as no callback has been registered the flat
                  model (`Afkak/BrokerClient.lean`, the one the theorems are about) is run alongside and a
@@ -127,16 +128,27 @@ def parseEv : List String → Option Ev
   | _ => none
 
 open Afkak.BrokerClientR in
-def parseHook : List String → Option Hook
+def parseAction : List String → Option Action
   | ["close"] => some .close
   | ["disconnect"] => some .disconnect
   | ["cancel", i] => do some (.cancel (← i.toInt?))
   | ["make", i, e] => do some (.make (← i.toInt?) (← parseBool e))
   | _ => none
 
+/-- split a word list at the separator `;` -/
+def splitSemi : List String → List (List String)
+  | [] => [[]]
+  | w :: ws => match splitSemi ws with
+    | [] => [[w]]
+    | g :: gs => if w == ";" then [] :: g :: gs else (w :: g) :: gs
+
+open Afkak.BrokerClientR in
+def parseHook (ws : List String) : Option Hook := (splitSemi ws).mapM parseAction
+
 open Afkak.BrokerClientR in
 def parseEvR : List String → Option EvR
   | "make" :: i :: e :: "hook" :: h => do some (.make (← i.toInt?) (← parseBool e) (some (← parseHook h)))
+  | ["stubborn", b] => do some (.stubborn (← parseBool b))
   | ws => (parseEv ws).map .flat
 
 open Afkak.BrokerClientR in
@@ -164,6 +176,7 @@ def flatOf : EvR → Option Ev
   | .make i e none => some (.make i e)
   | .make _ _ (some _) => none
   | .flat e => some e
+  | .stubborn _ => none
 
 def showReq (r : Req) : String :=
   s!"{r.serial}:{r.id}:{if r.expect then 1 else 0}{if r.sent then 1 else 0}{if r.cancelled then 1 else 0}"
